@@ -16,7 +16,12 @@ package keygen
 // is left untouched --; every party's new public share is F(j) (+ the previous public share of THAT party when
 // refreshing); the new configuration holds exactly these.
 //@ func (*round4).Finalize
+//@   nopanic[C05]
 //@   requires r != nil && r.round3 != nil && r.round2 != nil && r.round1 != nil && r.Helper != nil
+//@   requires k4ok(r) && out != nil && !closed(out) && r.SchnorrRand != nil && r.SchnorrRand.a != nil && r.SchnorrRand.commitment.C != nil && len(r.RID) == 32 && len(r.ChainKey) == 32
+//@   requires forall(j, party.ID, inslice(r.Helper.partyIDs, j) ==> (r.ShareReceived[j] != nil && (r.PreviousPublicSharesECDSA != nil ==> r.PreviousPublicSharesECDSA[j] != nil)))
+//@   requires forall(j, party.ID, indom(r.VSSPolynomials, j) ==> expok(r.VSSPolynomials[j])) && indom(r.VSSPolynomials, r.Helper.info.SelfID) && inslice(r.Helper.partyIDs, r.Helper.info.SelfID)
+//@   loop 2: invariant each(ShamirPublicPolynomials, q, expok(q)) && (visited(2, r.Helper.info.SelfID) ==> len(ShamirPublicPolynomials) > 0)
 //@   ensures[C08] r.PreviousSecretECDSA != nil ==> scval(r.PreviousSecretECDSA) == old(scval(r.PreviousSecretECDSA))
 //@   assert_at[C08] WriteAny "h.WriteAny(UpdatedConfig, r.SelfID())": UpdatedConfig.ECDSA == UpdatedSecretECDSA && fresh(UpdatedSecretECDSA) && UpdatedSecretECDSA != r.PreviousSecretECDSA && UpdatedConfig.Public == PublicData
 //@   assert_at[C08] WriteAny "h.WriteAny(UpdatedConfig, r.SelfID())": r.PreviousSecretECDSA != nil ==> scval(r.PreviousSecretECDSA) == old(scval(r.PreviousSecretECDSA))
@@ -24,6 +29,7 @@ package keygen
 //@   loop 1: invariant UpdatedSecretECDSA != nil && fresh(UpdatedSecretECDSA)
 //@   loop 2: invariant fresh(ShamirPublicPolynomials)
 //@   loop 3: invariant fresh(PublicData) && ShamirPublicPolynomial != nil
+//@   loop 3: invariant each(r.Helper.partyIDs[:rangeindex+1], j, indom(PublicData, j) && PublicData[j] != nil && PublicData[j].ECDSA != nil)
 //@   loop 3: invariant[C08,C02] each(r.Helper.partyIDs[:rangeindex+1], j, indom(PublicData, j) && PublicData[j] != nil && fresh(PublicData[j]) && ptval(PublicData[j].ECDSA) == ite(r.PreviousPublicSharesECDSA != nil, p_add(evalpt(ShamirPublicPolynomial, idsc(j)), old(ptval(r.PreviousPublicSharesECDSA[j]))), evalpt(ShamirPublicPolynomial, idsc(j))))
 
 // ---- round state invariants (established by the start function / the previous Finalize)
@@ -103,3 +109,27 @@ package keygen
 //@   requires r.PaillierSecret.PublicKey != nil && pkok(r.PaillierSecret.PublicKey) && pkvals(r.PaillierSecret.PublicKey) && r.PaillierSecret.phi != nil && r.PaillierSecret.phiInv != nil
 //@   requires r.VSSPolynomials[msg.From] != nil && expok(r.VSSPolynomials[msg.From])
 //@   ensures[C03,C02] result == nil ==> (r.ShareReceived[msg.From] != nil && act(scval(r.ShareReceived[msg.From]), gen()) == evalpt(r.VSSPolynomials[msg.From], idsc(r.Helper.info.SelfID)))
+
+// ---- Finalize methods (C05): with the state the previous rounds stored (every party's entries present -- the handler
+// finalizes a round only after all its messages were stored, C07 -- and of the shapes the acceptance gates let
+// through) nothing panics.
+//@ pred skok(sk *paillier.SecretKey) := sk != nil && sk.PublicKey != nil && pkok(sk.PublicKey) && pkvals(sk.PublicKey) && pkbig(sk.PublicKey) && sk.p != nil && sk.q != nil && sk.phi != nil && sk.phiInv != nil
+//@ func (*round3).Finalize
+//@   nopanic[C05]
+//@   use bits
+//@   requires k3ok(r) && out != nil && !closed(out) && skok(r.PaillierSecret) && r.PedersenSecret != nil
+//@   requires forall(j, party.ID, inslice(r.Helper.partyIDs, j) ==> (len(r.ChainKeys[j]) == 32 && len(r.RIDs[j]) == 32 && kparty(r.round2, j) && idsc(j) != s_zero()))
+//@   requires inslice(r.Helper.partyIDs, r.Helper.info.SelfID) && forall(x, party.ID, inslice(r.Helper.otherPartyIDs, x) ==> inslice(r.Helper.partyIDs, x))
+//@   requires each(r.VSSSecret.coefficients, c, c != nil) && (r.PreviousChainKey != nil ==> len(r.PreviousChainKey) == 32)
+//@   loop 1: invariant len(chainKey) == 32
+//@   loop 2: invariant len(rid) == 32
+//@   loop 3: invariant k3ok(r) && skok(r.PaillierSecret) && h != nil && h.h != nil && each(r.VSSSecret.coefficients, c, c != nil) && forall(j, party.ID, inslice(r.Helper.partyIDs, j) ==> (kparty(r.round2, j) && idsc(j) != s_zero()))
+//@ func (*round2).Finalize
+//@   nopanic[C05]
+//@   requires k2ok(r) && out != nil && !closed(out) && r.SchnorrRand != nil && r.Pedersen[r.Helper.info.SelfID] != nil && pedok(r.Pedersen[r.Helper.info.SelfID])
+//@ func (*round5).Finalize
+//@   nopanic[C05]
+//@   requires r != nil && k4ok(r.round4)
+//@ func (*round1).Finalize
+//@   nopanic[C05]
+//@   requires k1ok(r) && out != nil && !closed(out) && each(r.VSSSecret.coefficients, c, c != nil) && idsc(r.Helper.info.SelfID) != s_zero()
